@@ -4,6 +4,7 @@ from sa.engine.index import norm
 from sa.selftest.harness import delete_stmt, find_stmt, insert_after, insert_before, replace_node, sub_in_node, variant
 
 M = "pynguin.utils.orderedset"
+MOD = M
 
 
 @variant("C34", "double-consume-intersection-update", M, "C34.once", "second pass over `other` in intersection_update")
@@ -55,3 +56,54 @@ def _v7(repo, mod):
     fn = repo.func(M, "_AbstractOrderedSet.issubset")
     s = find_stmt(fn, lambda s: isinstance(s, ast.If) and "isinstance" in norm(s.test))
     return delete_stmt(mod, s)
+
+
+@variant("C34", "issuperset-size-shortcut-for-any-sized-operand", MOD, "C34.laws", "duplicates in a list operand make issuperset answer False (the repaired defect)")
+def _v20(repo, mod):
+    fn = repo.methods(repo.cls(MOD, "_AbstractOrderedSet"))["issuperset"]
+    s = find_stmt(fn, lambda s: isinstance(s, ast.If))
+    return replace_node(mod, s.test, "isinstance(other, Collection) and len(self) < len(other)")
+
+
+@variant("C34", "difference-update-pops-in-place", MOD, "C34.laws", "difference_update iterates the operand lazily while popping: s.difference_update(s) breaks")
+def _v21(repo, mod):
+    fn = repo.methods(repo.cls(MOD, "OrderedSet"))["difference_update"]
+    from sa.selftest.harness import node_text
+    head = node_text(mod, fn).split('"""')[0]
+    doc = node_text(mod, fn).split('"""')[1]
+    return replace_node(mod, fn, head + '"""' + doc + '"""\n        for other in others:\n            for item in other:\n                self._items.pop(item, None)')
+
+
+@variant("C34", "symmetric-difference-update-keeps-common", MOD, "C34.laws", "elements of both sets survive the in-place symmetric difference")
+def _v22(repo, mod):
+    fn = repo.methods(repo.cls(MOD, "OrderedSet"))["symmetric_difference_update"]
+    s = find_stmt(fn, lambda s: isinstance(s, ast.Assign) and norm(s.targets[0]) == "self._items")
+    return delete_stmt(mod, s)
+
+
+@variant("C34", "intersection-order-of-the-operand", MOD, "C34.laws", "intersection iterates the operand, not the receiver")
+def _v23(repo, mod):
+    fn = repo.methods(repo.cls(MOD, "_AbstractOrderedSet"))["intersection"]
+    r = [s for s in fn.body if isinstance(s, ast.Return)][-1]
+    return replace_node(mod, r.value, "cls(item for item in common if item in self)")
+
+
+@variant("C34", "union-skips-receiver-order", MOD, "C34.laws", "union puts the operand's elements first")
+def _v24(repo, mod):
+    fn = repo.methods(repo.cls(MOD, "_AbstractOrderedSet"))["union"]
+    s = find_stmt(fn, lambda s: isinstance(s, ast.Assign) and norm(s.targets[0]) == "merged_iterables")
+    return replace_node(mod, s.value, 'itertools.chain(others, [cast("Iterable[T]", self)])')
+
+
+@variant("C34", "getitem-off-by-one-for-negative", MOD, "C34.laws", "negative indices are normalised with len - 1")
+def _v25(repo, mod):
+    fn = [f for f in repo.cls(MOD, "_AbstractOrderedSet").body if isinstance(f, ast.FunctionDef) and f.name == "__getitem__"][-1]
+    s = find_stmt(fn, lambda s: isinstance(s, ast.AugAssign))
+    return replace_node(mod, s.value, "len(self._items) - 1")
+
+
+@variant("C34", "twin-issuperset-materialises", MOD, None, "issuperset through a materialised set stays silent")
+def _v26(repo, mod):
+    fn = repo.methods(repo.cls(MOD, "_AbstractOrderedSet"))["issuperset"]
+    r = [s for s in fn.body if isinstance(s, ast.Return)][-1]
+    return replace_node(mod, r.value, "all(item in self._items for item in tuple(other))")
